@@ -181,6 +181,12 @@ pub fn proof_inputs_to_rln_witness(
 ) -> Result<(RLNWitnessInput, usize)> {
     let mut all_read: usize = 0;
 
+    // identity_secret<32> | id_index<8> | user_message_limit<32> | message_id<32> | external_nullifier<32> | signal_len<8>
+    let fixed_size = 4 * fr_byte_size() + 16;
+    if serialized.len() < fixed_size {
+        return Err(Report::msg("proof input too short"));
+    }
+
     let (identity_secret, read) = bytes_le_to_fr(&serialized[all_read..]);
     all_read += read;
 
@@ -203,9 +209,14 @@ pub fn proof_inputs_to_rln_witness(
     ))?;
     all_read += 8;
 
-    let signal: Vec<u8> = serialized[all_read..all_read + signal_len].to_vec();
+    let signal: Vec<u8> = match all_read.checked_add(signal_len) {
+        Some(end) if end <= serialized.len() => serialized[all_read..end].to_vec(),
+        _ => return Err(Report::msg("declared signal length exceeds input size")),
+    };
 
-    let merkle_proof = tree.proof(id_index).expect("proof should exist");
+    let merkle_proof = tree
+        .proof(id_index)
+        .map_err(|e| Report::msg(format!("no Merkle proof for index {id_index}: {e}")))?;
     let path_elements = merkle_proof.get_path_elements();
     let identity_path_index = merkle_proof.get_path_index();
 
